@@ -39,14 +39,17 @@ def scratch(d, ids):
             return 2
 
         def run(pid):
-            env = "NIXSA_REPO=%s NIXSA_EVIDENCE_DIR=%s/ev-%s" % (tmp, tmp, pid)
+            env = "NIXSA_REPO=%s NIXSA_EVIDENCE_DIR=%s/ev-%s NIXSA_CACHE_DIR=%s/cache" % (tmp, tmp, pid, tmp)
             rc, out = sh("%s ./check %s --tier quick" % (env, pid), cwd=VERIF)
             lines = [l for l in out.splitlines() if l.startswith("VIOLATION") or l.startswith("ANALYSIS-ERROR")]
             firstmsg = [l for l in out.splitlines() if re.match(r"^C\d+\.R\w+ ", l)][:3]
             return pid, {"exit": rc, "lines": [l.replace(tmp, "<scratch>") for l in lines[:4]], "messages": [m[:300] for m in firstmsg]}
         res = {}
+        first = "C11" if "C11" in ids else ids[0]
+        res[first] = run(first)[1]          # fills the scratch copy's call-graph cache for the others
+        ids_rest = [i for i in ids if i != first]
         with ThreadPoolExecutor(int(os.environ.get("JOBS", "5"))) as ex:
-            for pid, r in ex.map(run, ids):
+            for pid, r in ex.map(run, ids_rest):
                 res[pid] = r
         record(d, ids, res)
         return 0
